@@ -104,6 +104,9 @@ class Ref:
         return res
 
     def m1(self, name, body, i, env):
+        if name in ("$and", "$or", "$and_any_order") and isinstance(body, dict):
+            # children written as a YAML mapping (`$and:` / `  push: [...]` / `  mov: [...]`): the same items in the written order
+            body = [{k: v} for k, v in body.items()]
         if name == "$and":
             return self.seq(body, i, env)
         if name == "$or":
@@ -279,7 +282,10 @@ def _alts(v, pre):
 
 
 def _field_alternatives(v):
-    """A $deref field value is a literal or [ {$or: [literal, ...]} ] (C03)."""
+    """A $deref field value is a literal or [ {$or: [literal, ...]} ] (C03); the operator mapping may also be the value itself
+    ({$or: [...]}, the one-element list written without its dash)."""
+    if isinstance(v, dict) and list(v) == ["$or"]:
+        v = [v]
     if isinstance(v, list) and len(v) == 1 and isinstance(v[0], dict) and list(v[0]) == ["$or"]:
         out = []
         for alt in v[0]["$or"]:
